@@ -119,3 +119,11 @@ shape!(c11_prec_not_eq, parse_p7, parse_p12, |a, b, c| [Token::ExclamationPoint,
 shape!(c11_prec_not_not_eq, parse_p7, parse_p12, |a, b, c| [Token::ExclamationPoint, Token::ExclamationPoint, lit(a), Token::EqualsEquals, lit(b)], b2i(b2i(a != 0) == b));
 // a < !b  is  a < (!b)
 shape!(c11_prec_lt_not, parse_p6, parse_p12, |a, b, c| [lit(a), Token::LeftAngleBracket(Spaced), Token::ExclamationPoint, lit(b)], b2i(a < b2i(b == 0)));
+
+/// the one std contract the Verus unit cond_parser ASSUMES for BinOp::apply: u64::from(bool) is 1 for true and 0 for false.  COMPLETE.
+#[kani::proof]
+fn c11_u64_from_bool_contract() {
+    let b: bool = kani::any();
+    assert!(u64::from(b) == if b { 1 } else { 0 });
+    kani::cover!(b);
+}
